@@ -875,11 +875,13 @@ func main() {
 	}
 	r.Set("explorations", tags)
 	ev.Parallel(len(jobs), runtime.NumCPU(), func(i int) { jobs[i].run() })
+	undecoded(r, subs)
 
 	r.Rule("explicit-state BFS per (runtime, extendable message, extension set, value pair): every second subject of each runtime is first shown to csproto as a typed nil pointer (MsgType, HasExtension) so that whatever csproto remembers per Go type is formed from a nil value; alphabet Set(e,v1) Set(e,v2) Clear(e) for every e of the set + ClearAll, " +
 		"every op applied in every reachable state by replaying the state's history on a fresh message through csproto and applying the op; dedup on (model, reflection-only encoding of the real message); " +
 		"after every transition and for EVERY declared extension: csproto Has/Get/Range == model == owning runtime's API, twin message driven by the runtime API is identical, encoding holds exactly the set field numbers; " +
 		"in every state: Range with early callback error, ExtensionFieldNumber, csproto/runtime Marshal x csproto/runtime Unmarshal, every accessor with the same extension's descriptor of every other runtime, a dynamicpb extension type, nil, 42, \"x\"")
+	r.Assume("undecoded clause: for every subject, extension and value the extension's bytes are placed in the unknown-field storage of a fresh message; every sequence of <= 3 calls over {Has, Get, Clear} is applied through csproto and, to a twin, through the owning runtime's API: same answers at every call, same message afterwards (golang/protobuf scans and lazily decodes unknown fields, protobuf-go and gogo do not: the runtime decides)")
 	r.Assume("ClearExtension with a mismatching descriptor may panic (documented); the message must be unchanged")
 	r.Assume("the value passed to the RangeExtensions callback is the descriptor for Gogo / Google V1 messages and the extension value for Google V2 messages (extensions.go); both are accepted, only the visited set, names and numbers are judged")
 	r.Assume("repeated extensions (p2extrep) and file-scope extensions (p2extfile) are not supported by the generated fast-marshal code (recorded C04/C05/C06 findings): no csproto.Marshal / generated methods for these, runtime Marshal only for V2 messages")
